@@ -231,13 +231,27 @@ func zzNewWalletWorldWith(params *chaincfg.Params, base int32, n int) *zzWalletW
 	// the wallet is synced to the model's chain: record the last blocks
 	zzW(walletdb.Update(ww.db, func(tx walletdb.ReadWriteTx) error {
 		ns := tx.ReadWriteBucket(waddrmgrNamespaceKey)
+		// the wallet remembers the hashes of the last MaxReorgDepth blocks:
+		// here the model's blocks and a few of their predecessors
+		for h := base - 3; h < base; h++ {
+			if h < 0 {
+				continue
+			}
+			m := c.meta(zzBlk{height: h})
+			if err := w.Manager.SetSyncedTo(ns, &waddrmgr.BlockStamp{Height: m.Height, Hash: m.Hash, Timestamp: m.Time}); err != nil {
+				return err
+			}
+		}
 		for _, b := range c.blocks {
 			m := c.meta(b)
 			if err := w.Manager.SetSyncedTo(ns, &waddrmgr.BlockStamp{Height: m.Height, Hash: m.Hash, Timestamp: m.Time}); err != nil {
 				return err
 			}
 		}
-		return nil
+		// a wallet that has completed its initial sync knows its birthday
+		// block (from then on PutSyncedTo insists on a known predecessor)
+		m0 := c.meta(c.blocks[0])
+		return w.Manager.SetBirthdayBlock(ns, waddrmgr.BlockStamp{Height: m0.Height, Hash: m0.Hash, Timestamp: m0.Time}, true)
 	}))
 	return ww
 }
